@@ -577,7 +577,13 @@ impl Property for C39 {
     }
     /// outcome-keyed: the signature of the statement on which the history fails (None when it does not fail)
     fn known_signature(&self, case: &Case) -> Option<String> {
-        evaluate(case).1
+        // the engine calls this outside its panic guard: a panic of the code under test must not escape from here. The case is then
+        // evaluated again by `run` (inside the guard), where the engine classifies the panic by its location.
+        match std::panic::catch_unwind(std::panic::AssertUnwindSafe(|| evaluate(case).1)) {
+            Ok(sig) => sig,
+            // a panic after an INSERT left a batch of a foreign physical type in the table belongs to `insert-type-drift`
+            Err(_) => DRIFTED.with(|d| d.get()).then(|| "insert-type-drift".to_string()),
+        }
     }
     fn run(&self, case: &Case) -> CaseResult {
         evaluate(case).0
@@ -596,6 +602,7 @@ async fn drive(ctx: &SessionContext, case: &Case) -> (CaseResult, Option<String>
     // an earlier INSERT .. SELECT left a batch of another physical type in the table (known finding `insert-type-drift`):
     // every later failure of the history is attributed to it
     let mut drifted = false;
+    DRIFTED.with(|d| d.set(false));
     let mut script: Vec<String> = vec![];
     let fail = |msg: String, script: &[String], labels: Vec<String>| CaseResult::violation(format!("{msg}\n  repro:\n{}{}", vf_df::repro_script(&[case.t.clone(), case.u.clone()], "SELECT 1"), script.join(";\n"))).labels(labels);
     for (i, s) in case.stmts.iter().enumerate() {
@@ -658,6 +665,7 @@ async fn drive(ctx: &SessionContext, case: &Case) -> (CaseResult, Option<String>
             Ok((r, drift)) => {
                 if drift && !drifted {
                     drifted = true;
+                    DRIFTED.with(|d| d.set(true));
                     labels.push("table-holds-foreign-physical-type".into());
                 }
                 r
@@ -718,6 +726,8 @@ async fn lost_sig(ctx: &SessionContext, s: &Stmt, sql: &str) -> Option<String> {
 }
 
 thread_local! {
+    /// set while a history runs once the table holds a batch of a foreign physical type (read after a panic)
+    static DRIFTED: std::cell::Cell<bool> = const { std::cell::Cell::new(false) };
     /// outcome of the last case evaluated on this thread: `known_signature` (outcome-keyed) and `run` see the same case back to back
     static LAST: std::cell::RefCell<Option<(u64, CaseResult, Option<String>)>> = const { std::cell::RefCell::new(None) };
 }
